@@ -120,7 +120,7 @@ class Executor:
         self.n_paths  = 0
         self.axioms   = list()       # global facts (comprehension axioms ...)
         self._solver  = z3.Solver()
-        self._solver.set('timeout', 2000)
+        self._solver.set('timeout', 250)
         self.loop_path = list()      # current loop ordinal path
         self.loop_cnt  = [0]
         self.variant   = ''          # parameter-type alternative label
@@ -129,6 +129,7 @@ class Executor:
         self.ghost_hooks = spec.get('ghost', [])
         self.feas_calls = 0
         self.specmode_lemma_only = False
+        self.defined = dict()       # fresh constant -> constants it is defined from
         from .loops import number_loops
         self.loop_ord = number_loops(fsrc.body)
 
@@ -169,17 +170,38 @@ class Executor:
         while full in names:
             n += 1
             full = '%s#%d' % (base, n)
-        hyps = list(self.axioms) + list(st.pc)
         if st.guards:
             goal = z3.Implies(z3.And(*st.guards), goal)
+        hyps = self.path_axioms(st, goal) + list(st.pc)
         o = Obligation(full, kind, hyps, goal, self.cur_line, note)
         o.variant = self.variant
+        o.trace = list(st.trace)
+        o.heads = dict(st.heads)
         if kind != 'canary':
             for k, v in st.env.items():
                 if isinstance(v, Val) and not isinstance(v, (PyTuple, PyDict)) \
                    and v.ty not in (TPy,) and not k.startswith('tmp!'):
                     o.at[k] = v
         self.obls.append(o)
+
+    def path_axioms(self, st, goal):
+        """the axioms (definitional facts about fresh terms: slices,
+        concatenations, unfoldings ...) that belong to this path: an axiom is
+        kept iff every fresh constant it mentions occurs on the path.  Leaving
+        the others out is sound (fewer hypotheses)."""
+        known = set()
+        for h in st.pc:
+            known |= anchors(h)
+        known |= anchors(goal)
+        # a fresh constant that is defined from constants of the path (e.g.
+        # the key list behind a values() view) belongs to the path as well
+        grown = True
+        while grown:
+            grown = False
+            for c, src in self.defined.items():
+                if c not in known and src <= known:
+                    known.add(c); grown = True
+        return [a for a in self.axioms if anchors(a) <= known]
 
     def fail(self, st, cond, exc):
         '''python raises `exc` when `cond`; afterwards not cond is assumed'''
@@ -796,8 +818,21 @@ class Executor:
             z3.Select(ty.arr(out.term), i) ==
             z3.Select(ty.arr(b.term), i - la)),
             patterns=[z3.Select(ty.arr(out.term), i)]))
-        self.concats = getattr(self, 'concats', [])
-        self.concats.append((out, a, b))
+        # registered concat lemmas (proved by induction) are instantiated here
+        for entry in self.spec.get('concat_lemmas', []):
+            from .vcgen import instantiate_lemma
+            name, extra = entry if isinstance(entry, tuple) else (entry, {})
+            lem = self.reg.lemmas[name]
+            if lem['vars']['out'] != ty:
+                continue
+            bind = dict(out=out, a=a, b=b, la=Val(TInt, la), n=Val(TInt, lb))
+            for var, text in extra.items():
+                # further lemma variables bound to values of the program state
+                # at this point (e.g. the node the new slots were found on)
+                bind[var] = self.spec_expr(text, st)
+            # the concat facts must be visible to the lemma-call obligations
+            self.axioms.append(instantiate_lemma(self, lem, bind, st,
+                               rewrite=[(la + lb, ty.len(out.term))]))
         return out
 
     # strings are identifiers: built strings are uninterpreted functions of
@@ -1582,6 +1617,10 @@ class Executor:
         a2, b2 = coerce(va, ty), coerce(vb, ty)
         if a2.term.eq(b2.term):
             return a2
+        if self.opts.get('merge') == 'scalars' and _has_list(ty):
+            # containers are not merged into if-then-else terms (they would
+            # hide the select/store structure the quantified invariants match)
+            return None
         return Val(ty, z3.If(c, a2.term, b2.term))
 
 
@@ -1592,6 +1631,33 @@ def _has_list(ty):
     if isinstance(ty, TMap):  return _has_list(ty.v)
     if isinstance(ty, TTuple): return any(_has_list(t) for t in ty.elems)
     return False
+
+
+_an_cache = dict()
+
+
+def anchors(e):
+    """names of the path-specific (fresh, '!'-named) 0-ary constants in e"""
+    k = e.get_id()
+    if k in _an_cache:
+        return _an_cache[k]
+    out, todo, seen = set(), [e], set()
+    while todo:
+        x = todo.pop()
+        i = x.get_id()
+        if i in seen: continue
+        seen.add(i)
+        if z3.is_quantifier(x):
+            todo.append(x.body()); continue
+        if z3.is_app(x):
+            if x.num_args() == 0 and x.decl().kind() == z3.Z3_OP_UNINTERPRETED:
+                n = x.decl().name()
+                if '!' in n and not n.startswith(('str!', 'dflt!', 'sum!', 'cnt!')):
+                    out.add(n)
+            else:
+                todo.extend(x.children())
+    _an_cache[k] = out
+    return out
 
 
 _hq_cache = dict()
